@@ -15,7 +15,7 @@ import (
 
 const ruleC16 = "keys of 0..12 characters from all Unicode planes, every ASCII symbol, control characters, escape look-alikes as literal text (backslash-n, backslash-u0041, backslash-ud800, doubled backslash, backslash-quote ...), each among 1..5 near-miss sibling keys (backslash added/removed, decoded form of the look-alike, prefix, case variant, trailing space/NUL) with distinct values; " +
 	"spellings ['k'] and [\"k\"] with minimal / full \\uXXXX (surrogate pairs) / '\\/' escaping and U+FFFD as the lone-surrogate escape, and the dot form with every symbol backslash-escaped (non-empty keys without control characters); positions: root, without '$', after '..', after another name, inside a filter (comparison and existence), inside a multi-name selector; plus an absent near-miss key. " +
-	"Oracle: plain Go map lookup (after '..': all and only the occurrences in pre-order). Non-trivial: the key is empty or has a character outside [A-Za-z0-9_-], and the object has >=1 near-miss sibling. Distinct = distinct (key, siblings)."
+	"Oracle: plain Go map lookup (after '..': all and only the occurrences in pre-order). Non-trivial: the key is empty or has a character outside [A-Za-z0-9_-], and the object has >=1 near-miss sibling. Distinct = distinct (key, siblings). A kept parsed function whose filter reads the member from the root is called four times while the caller replaces the member in place."
 
 func drawC16(rt *rapid.T) *Case {
 	g := gen.NewG(rt, gen.PathOpts{})
